@@ -235,16 +235,34 @@ def random_cases(draw):
     return case
 
 
+def _wide_cases(widths):
+    """Exports of many hundreds of lines, also written to a file (a node with several hundred children, one of them with children of its own)."""
+    for width in widths:
+        shape = [[] for _ in range(width)]
+        shape[width // 3] = [[], [[]]]
+        size = width + 4
+        for maxlevel, hide in ((None, []), (2, [5, width])):
+            yield {"shape": shape, "names": ["n%d" % i for i in range(size)], "start": 0, "stop": [], "hide": hide, "maxlevel": maxlevel, "to_file": True, "cls": "Node"}
+
+
 def plan(tier, seed):
     nshards = 16
     max_nodes = QUICK_N if tier == "quick" else THOROUGH_N
     examples = 150 if tier == "quick" else 1200
     tasks = [{"engine": "enum", "max_nodes": max_nodes, "index": i, "count": nshards * 2} for i in range(nshards * 2)]
     tasks += [{"engine": "hyp", "examples": examples, "seed": seed * 1000 + i} for i in range(nshards)]
+    tasks += [{"engine": "wide", "widths": [w]} for w in ((300, 700) if tier == "quick" else (257, 300, 700, 1100, 2500))]
     return tasks
 
 
 def run_task(task, acc):
+    if task["engine"] == "wide":
+        for case in _wide_cases(task["widths"]):
+            exc = acc.evaluate(check_case, case, enumerated=False)
+            if exc is not None:
+                acc.add_violation(case, exc)
+                break
+        return
     if task["engine"] == "enum":
         acc.run_enum(check_case, _enum_cases(task["max_nodes"], task["index"], task["count"]))
     else:
